@@ -68,6 +68,15 @@ PROPS = {
         explanation="C10_no_panic (all types, all readers), C10_sound/C10_valid/C10_rejects_invalid (accepted => hasType and serialize = input), C10_reencode, C10_sound_reader (exact consumption on any reader), C10_bitlistCheck_agrees/C10_bitvectorCheck_agrees (= C18 model)",
         assumptions=["t.wf; variable-size top level (C10_fixed_top states what happens otherwise)", "C10_reencode: input < 2^32 bytes", "next-off wrap modelled as the SubScope refusal it causes (scopes < 2^63)"],
         trusted=COMMON_TRUST + ["harness/flat.go recipe"]),
+    "C13": P(13, ["C13"],
+        rule="per sampled (type,value): io.dec over schedules {1,2,3,7,half,all}x{sep,with,fail} on the complete stream, every failure/end position 0..len-1 x the schedules + all/with + random; corrupted encodings; "
+             "io.enc for every writer failure position 0..len+1 and no failure; primitive io.read: random data/scope/schedule/end mode with random request programs (raw+typed reads, nested sub-scopes, beyond-scope, zero-length), exhaustive k x schedule x end mode on fixed streams; "
+             "primitive io.write: random op sequences x failure position x short-write modes; distinct = distinct op shapes x outcome",
+        explanation="Model: DecodingReader over nested io.LimitedReader over a delivery schedule; EncodingWriter over a failing writer. Theorems C13_read*, C13_reads, C13_prog, C13_adaptive (any legal schedule = flat byte list, error exactly when scope or stream is short), "
+                    "C13_write* (prefix / counter / error-iff-incomplete). io.read and io.write compare model and code; io.dec and io.enc check the property on the real decoders and encoders (PROP only)",
+        assumptions=["reader obeys io.Reader: every call with len(p)>0 delivers >=1 byte or a non-nil error ((0,nil) forever excluded: ReaderState.legal)", "request sizes < 2^64", "error kinds other than io.EOF are not distinguished", "Skip() and the int count returned beside an error are not modelled",
+                     "real OS readers are abstracted by the io.Reader contract (delivery schedule)"],
+        trusted=COMMON_TRUST + ["schedReader / failWriter fault injectors in harness/ops_io.go"]),
     "C11": P(11, ["C11"],
         rule="CORR: model obs == Go obs for every tr.* op (dump of result tree, root, unchanged/shared flags, error class, panic); PROP on the Go observation with spec helpers: read-back = written node, every sibling of the path = original node "
              "(or zero node inside an expanded summary), root = branch root over original siblings (= write into materialised zero subtree), summarise keeps root, unchanged=1 shared=1 (Go checks pointer identity of all off-path nodes and the dump/root of the original), "
